@@ -1326,9 +1326,17 @@ class Engine:
 
         #NOTE: In non-repeating engine lastLaunched really is engine creationTime
         #Need to fix this
-        if not self._runCalled:
+        # VV: Read each ivar once. restart() resets them one by one on a different thread, this property must not raise
+        # when it is evaluated in the middle of that (an exception raised while the periodic emission generates its
+        # snapshot terminates the stateUpdates observable and the engine's owner never hears from it again).
+        process = self.process
+        runCalled = self._runCalled
+        taskLaunched = self._taskLaunched
+        taskFinished = self._taskFinished
+
+        if not runCalled:
             waitTime = 'N/A'
-        elif not self._taskLaunched:
+        elif not taskLaunched:
             #If task isn't launched and we're dead we're not waiting anymore
             #If we keep incrementing waitTime not only is it meaningless
             #but the stateUpdates observable will keep going
@@ -1336,28 +1344,23 @@ class Engine:
             #As a fix if we terminated while waiting we set waitTime to N/A
             #We identify this by checking if exitReason is set (+ last hasn't launched)
             if self.exitReason() is None:
-                waitTime = datetime.datetime.now() - self._runCalled
+                waitTime = datetime.datetime.now() - runCalled
             else:
                 waitTime = 'N/A'
         else:
-            waitTime = self._taskLaunched - self._runCalled
+            waitTime = taskLaunched - runCalled
 
-        if not self._taskLaunched:
+        if not taskLaunched:
             runTime = 'N/A'
-        elif not self._taskFinished:
-            runTime = datetime.datetime.now() - self._runCalled
+        elif not taskFinished:
+            runTime = datetime.datetime.now() - runCalled
         else:
-            runTime = self._taskFinished - self._taskLaunched
+            runTime = taskFinished - taskLaunched
 
         def generate_update(runTime, waitTime):
 
             #_taskFinished is only None if a process was never launched
             #If self.process was set  i.e. a process was launched successfully, _taskFinished is always set
-
-            # Cache ivars accessed multiple times
-            process = self.process
-            runCalled = self._runCalled
-            taskFinished = self._taskFinished
 
             #isAlive() and returncode() are both functions of exitReason().
             #This can lead to inconsistencies if e.g. exitReason() is accessed and then change beforee `returncode` is accessed
@@ -1377,12 +1380,14 @@ class Engine:
                 'outputWaitTime': waitTime,
                 'isRunning': True if isAlive and runCalled is not None else False,
                 'runDate': runCalled,
-                'lastTaskLaunchDate': self._taskLaunched,
+                'lastTaskLaunchDate': taskLaunched,
                 'lastTaskRunTime': runTime,
                 'lastTaskRunState': process.status if process is not None else 'N/A',
                 'lastTaskFinishedDate': taskFinished,
-                'lastTaskExitCode': process.returncode if taskFinished is not None else 'N/A',
-                'lastTaskExitReason': process.exitReason if taskFinished is not None else 'N/A',
+                # VV: restart() clears self.process before self._taskFinished, a snapshot that is generated in
+                # between (e.g. by the periodic emission) must not raise: an exception here terminates stateUpdates
+                'lastTaskExitCode': process.returncode if (taskFinished is not None and process is not None) else 'N/A',
+                'lastTaskExitReason': process.exitReason if (taskFinished is not None and process is not None) else 'N/A',
                 'engineExitCode': returncode,
                 'engineExitReason': exitReason,
                 'schedulerId': process.schedulerId if process is not None else 'N/A',
